@@ -28,7 +28,7 @@ ParentVecs(n) ==
 ChildrenOf(p, i) ==   \* children in document (preorder) order
   LET S == {j \in 1..Len(p) : p[j] = i}
       RECURSIVE Sorted(_)
-      Sorted(T) == IF T = {} THEN <<>> ELSE LET m == CHOOSE x \in T : \A y \in T : x <= y IN <<m>> \o Sorted(T \ {m})
+      Sorted(T) == IF T = {} THEN <<>> ELSE LET m == CHOOSE x \in T : \A y \in T : x <= y  rest == T \ {m} IN <<m>> \o Sorted(rest)
   IN Sorted(S)
 IsLeaf(p, i) == \A j \in 1..Len(p) : p[j] # i
 FlagVecs(p) ==
@@ -56,7 +56,7 @@ HasFlaggedAncestor(tr, i) ==
 \* the reference's definition (preorder index order = document order)
 OutermostSet(tr) == {i \in 1..Len(tr.parent) : Flagged(tr, i) /\ ~HasFlaggedAncestor(tr, i)}
 RECURSIVE SetToSeq(_)
-SetToSeq(S) == IF S = {} THEN <<>> ELSE LET m == CHOOSE x \in S : \A y \in S : x <= y IN <<m>> \o SetToSeq(S \ {m})
+SetToSeq(S) == IF S = {} THEN <<>> ELSE LET m == CHOOSE x \in S : \A y \in S : x <= y  rest == S \ {m} IN <<m>> \o SetToSeq(rest)
 Outermost(tr) == SetToSeq(OutermostSet(tr))
 HasError(tr) == \E i \in 1..Len(tr.parent) : Flagged(tr, i)
 
